@@ -6,12 +6,12 @@ let bool_ s = (s = "1")
 let kind_of = function
   | "epoll" -> KEpoll | "uring" -> KUring | "pipe2" -> KPipe2 | "eventfd" -> KEventfd
   | "socket" -> KSocket | "socketpair" -> KSocketpair | "accept" -> KAccept | "open" -> KOpen
-  | "inotify" -> KInotify | "cmsg" -> KCmsg | "mkostemp" -> KMkostemp
+  | "inotify" -> KInotify | "cmsg" -> KCmsg | "mkostemp" -> KMkostemp | "ringopen" -> KRingOpen
   | s -> failwith ("kind " ^ s)
 let kind_name = function
   | KEpoll -> "epoll" | KUring -> "uring" | KPipe2 -> "pipe2" | KEventfd -> "eventfd"
   | KSocket -> "socket" | KSocketpair -> "socketpair" | KAccept -> "accept" | KOpen -> "open"
-  | KInotify -> "inotify" | KCmsg -> "cmsg" | KMkostemp -> "mkostemp"
+  | KInotify -> "inotify" | KCmsg -> "cmsg" | KMkostemp -> "mkostemp" | KRingOpen -> "ringopen"
 let htype_of = function "t" -> TTcp | "p" -> TPipe | "u" -> TUdp | _ -> TOther
 let src_of s =
   let rest = String.sub s 1 (String.length s - 1) in
